@@ -49,6 +49,16 @@ pub fn serve_if_worker(handler: fn(&Value) -> Value) {
         return;
     }
     crate::rs::init_process();
+    // a diverging input (e.g. an endless `@while` that keeps emitting items) must not be
+    // able to exhaust the machine: cap the worker's address space (default 6 GiB)
+    let cap_gib: u64 = std::env::var("VP_WORKER_MEM_GIB").ok().and_then(|s| s.parse().ok()).unwrap_or(6);
+    unsafe {
+        let lim = libc::rlimit {
+            rlim_cur: cap_gib << 30,
+            rlim_max: cap_gib << 30,
+        };
+        libc::setrlimit(libc::RLIMIT_AS, &lim);
+    }
     let t = std::thread::Builder::new()
         .stack_size(WORKER_STACK)
         .spawn(move || {
